@@ -185,17 +185,3 @@ Proof.
     apply IH. apply step_inv. exact H0. }
   destruct H as (_ & _ & H). exact H.
 Qed.
-
-(* ---- payee templates: overwrite on add, delete by key on remove: a shared payee loses its
-   template when ONE of the files drops it ---- *)
-Definition shared_payee_witness : list wop :=
-  [ WSet (bs "root") (mkFI [(bs "Pshop", 1)] [bs "shop"]);
-    WSet (bs "sub") (mkFI [(bs "Pshop", 1)] [bs "shop"]);
-    WSet (bs "sub") (mkFI [] []) ].
-
-Lemma templates_refuted :
-  let w := wrun shared_payee_witness in
-  cget (bs "Pshop") (wi_counts w) = 1 /\          (* the payee is still used (by root) ... *)
-  wi_templates w = [] /\                          (* ... but its template is gone *)
-  (exists f, file_get (bs "root") (wi_files w) = Some f /\ fi_templates f = [bs "shop"]).
-Proof. vm_compute. split; [reflexivity|]. split; [reflexivity|]. eexists. split; reflexivity. Qed.
